@@ -615,6 +615,9 @@ func checkOptions(options Options) error {
 	if options.BytesPerSync > 16*1024*1024 {
 		return errors.New("BytesPerSync should not exceed 16MB")
 	}
+	if options.ShardNum <= 0 {
+		return errors.New("ShardNum must be greater than 0")
+	}
 	if options.SyncStrategy == Threshold && options.BytesPerSync == 0 {
 		return errors.New("SyncStrategy should not never be 0")
 	}
